@@ -4,7 +4,7 @@
 From Coq Require Import List Bool ZArith.
 From Coq.Strings Require Import Byte.
 Import ListNotations.
-From SV Require Import Text G_c03 C03_Model C03_Lemmas C03_Fts C03_Hits C03_Chain C03_Write C03_Cli.
+From SV Require Import Text G_c03 C03_Model C03_Lemmas C03_Fts C03_Hits C03_Chain C03_Write C03_Cli C03_Session.
 
 (* the modelled chains are the regenerated priority lists FMTS_ALL, which start with FMTS *)
 Theorem C03_chains_pinned :
@@ -327,6 +327,63 @@ Example C03_witness_cli :
   cli_convert Fts (Some (bs "gff"%bs)) 1 None None (Some []) = CStdout (bs "gff"%bs) (bs "gff"%bs) /\
   cli_convert Fts (Some (bs "gff"%bs)) 1 None (Some (bs "o.gff"%bs)) (Some []) = CErr EKey.
 Proof. exact witness_cli. Qed.
+
+(* ---- sessions: histories of seek / read / readline / tell / detect / read-an-object calls on ONE handle, as a state machine
+   over (kind, content, offset) *)
+(* detect hands back the identical handle state: content, position and kind *)
+Theorem C03_detect_keeps_handle : forall w o h, snd (detect_h w o h) = h.
+Proof. exact detect_keeps_handle. Qed.
+Print Assumptions C03_detect_keeps_handle.
+
+(* detect calls can be deleted from ANY history without changing another answer or the final state *)
+Theorem C03_session_detect_transparent : forall ops h,
+  other_answers ops (fst (run_session h ops)) = fst (run_session h (filter nondetect ops)) /\
+  snd (run_session h ops) = snd (run_session h (filter nondetect ops)).
+Proof. exact session_detect_transparent. Qed.
+Print Assumptions C03_session_detect_transparent.
+
+(* a detect call after any history answers the verdict on the rest of the content at that moment *)
+Theorem C03_session_detect_value : forall pre w o h,
+  let h1 := snd (run_session h pre) in
+  fst (run_session h (pre ++ [SDetect w o])) =
+    fst (run_session h pre) ++ [VL [v_dres (detect w o (h_rest h1)); VI (Z.of_nat (h_pos h1))]] /\
+  snd (run_session h (pre ++ [SDetect w o])) = h1.
+Proof. exact session_detect_value. Qed.
+Print Assumptions C03_session_detect_value.
+
+(* binary and text handles answer alike, call by call *)
+Theorem C03_session_kind_irrelevant : forall ops c p,
+  fst (run_session {| h_content := c; h_pos := p; h_binary := true |} ops) =
+  fst (run_session {| h_content := c; h_pos := p; h_binary := false |} ops) /\
+  h_pos (snd (run_session {| h_content := c; h_pos := p; h_binary := true |} ops)) =
+  h_pos (snd (run_session {| h_content := c; h_pos := p; h_binary := false |} ops)).
+Proof. exact session_kind_irrelevant. Qed.
+Print Assumptions C03_session_kind_irrelevant.
+
+(* a Stockholm read consumes exactly one alignment -- the handle then stands at what follows the "//" line -- and never runs
+   past the content *)
+Theorem C03_stockholm_read_consumes_one_alignment : forall h w o body more,
+  stk_body_ok body = true -> h_rest h = text_of body ++ stk_end ++ more ->
+  let r := sstep h (SReadObj w o (Some (bs "stockholm"%bs))) in
+  h_rest (snd r) = more /\
+  fst r = VL [VS (bs "stockholm"%bs); VI (Z.of_nat (h_pos h + length (text_of body ++ stk_end)))].
+Proof. exact stockholm_read_consumes_one_alignment. Qed.
+Print Assumptions C03_stockholm_read_consumes_one_alignment.
+
+Theorem C03_stockholm_read_stays_inside : forall s, stk_consume s <= length s.
+Proof. exact stockholm_read_stays_inside. Qed.
+Print Assumptions C03_stockholm_read_stays_inside.
+
+Example C03_witness_session :
+  let c := render_stockholm [bs "a ACGU"%bs; bs "b AC-U"%bs] ++ render_stockholm [bs "c GG"%bs] in
+  let h := {| h_content := c; h_pos := 0; h_binary := true |} in
+  let stk := Some (bs "stockholm"%bs) in
+  stk_body_ok [bs "# STOCKHOLM 1.0"%bs; bs "a ACGU"%bs; bs "b AC-U"%bs] = true /\
+  fst (run_session h [SDetect Seqs no_opts; SReadObj Seqs no_opts None; STell; SDetect Fts no_opts; SDetect Seqs no_opts;
+                      SReadObj Seqs no_opts stk; SReadObj Seqs no_opts None; SRead None]) =
+    [VL [VS (bs "stockholm"%bs); VI 0]; VL [VS (bs "stockholm"%bs); VI 33]; VI 33; VL [VNone; VI 33]; VL [VS (bs "stockholm"%bs); VI 33];
+     VL [VS (bs "stockholm"%bs); VI 57]; VE (bs "OSError"%bs); VS []].
+Proof. exact witness_session. Qed.
 
 (* non-vacuity: concrete contents satisfying the hypotheses, and the documented BLAST / MMseqs2 discriminator at work *)
 Example C03_witness_shapes :
